@@ -444,7 +444,13 @@ def _denote(entries):
         elif o[0] == "wild":
             owner = (resolve(o[1], origin), True)
         else:
-            owner = (resolve(o, origin), False)
+            n = resolve(o, origin)
+            if len(n) >= 1 and n[0] == b"*":
+                # (fix 0286676) an owner that expands to a name with leftmost label '*' -- e.g. '@' under
+                # '$ORIGIN *.example.com.' -- is a wildcard however it was written
+                owner = (n[1:], True)
+            else:
+                owner = (n, False)
         rdt = rdata_token(d["rdata"], origin)
         if d["rtype"] == tok.SOA:
             ttl = d["rdata"][7]                      # D3: the SOA RR is loaded with TTL = MINIMUM
@@ -542,7 +548,10 @@ class Gen:
             full = self.rel(allow_empty=True) + self.apex
         else:
             full = tuple(self.label() for _ in range(rng.randint(0, 3)))
-        if owner and full and full[0] == b"*":
+        if owner and origin and origin[0] == b"*" and rng.random() < 0.5:
+            # '@' (or the absolute text) under a '*'-led origin: a wildcard since fix 0286676
+            return self.write(origin, origin), origin
+        if owner and full and full[0] == b"*" and rng.random() < 0.5:
             full = (b"w",) + full[1:]                        # "*.x" in owner position is the wildcard syntax
         return self.write(full, origin), full
 
@@ -616,6 +625,8 @@ class Gen:
             if rng.random() < 0.12:
                 # change of origin: to a name under the apex (relative or absolute)
                 target = self.rel(allow_empty=True) + self.apex
+                if rng.random() < 0.12:
+                    target = (b"*",) + target                # a '*' label in $ORIGIN (witness of fix 0286676)
                 ref = self.write(target, origin)
                 entries.append(("origin", ref))
                 origin = lower(target)
